@@ -19,6 +19,7 @@ import copy
 import json
 import os
 import random
+import re
 import subprocess
 import sys
 
@@ -27,6 +28,7 @@ import pandas as pd
 
 import vlib
 from props import codec_common as cc
+from props import codec_hist as ch
 
 MANIFEST = dict(
     text="Machine-checked (Coq 8.16, axiom-free) theorems about the model of what hashgen.py feeds to md5: the identifier does not depend on "
@@ -43,7 +45,12 @@ MANIFEST = dict(
          "(the temperature is exported as stored, in the isotherm's own unit; reading it through anything else breaks the proof), and compared "
          "per run with the dictionary to_dict() returns; every read-only query of the three classes (generated table of the names each method "
          "binds on the object) binds only names to_dict discards; pairs (isotherm, isotherm obtained from it by export+parse / to_dict+constructor "
-         "/ from_isotherm / in-place temperature conversion or assignment vs fresh object), half of them stored in degC, must have equal identifiers.",
+         "/ from_isotherm / in-place temperature conversion or assignment vs fresh object), half of them stored in degC, must have equal identifiers. Round 4: "
+         "a generated table of EVERY method of Material and Adsorbate (names written on the object, methods of the class reached through self) "
+         "with the theorem that no getter writes - directly or through a helper - the name, aliases or property dictionary (what to_dict reads); "
+         "per run, isotherms whose material properties range over every JSON type (int literals, numeric text, bool, None, nested) are read "
+         "through accessors converting to other material / loading bases and through every getter discovered on the two classes: identifier, "
+         "to_dict() (typed) and == with an untouched twin must not move.",
     note="Trusted: Coq kernel; oracles md5, hash_pandas_object (one hash per row from label and dtype-tagged cells), str(int), json.dumps(sort_keys); "
          "numpy round(8) modelled as exact half-even rounding (generator stays away from ties); tools/py2v_tables.py; the abstraction function "
          "of the harness.",
@@ -561,6 +568,56 @@ def held_reference_edits(rep, tier, seed):
     rep.cov['held_reference_edits'] = {'cases': done, 'failing_cases_per_tag': dict(sorted(seen.items()))}
     return hist, nontrivial
 
+# ------------------------------------------------------------------ reads that TOUCH typed material / adsorbate properties
+def typed_read_case(spec, read_seed):
+    """-> (queries, snapshot before, snapshot after, twin equal before, twin equal after, twin in-list after)"""
+    iso, twin = cc.build(spec), cc.build(spec)
+    s0 = ch.snapshot(iso)
+    eq0 = bool(iso == twin)
+    qs = ch.touching_reads(iso, random.Random(read_seed))
+    s1 = ch.snapshot(iso)
+    return qs, s0, s1, eq0, bool(iso == twin), bool(iso in [twin])
+
+
+def typed_value_reads(rep, tier, seed):
+    """material property / metadata VALUES of every JSON-representable type (int literals, numeric text, bool, None, nested), then
+    read-only queries that read them (accessors converting the returned value to another material / loading basis, every getter
+    discovered on the Material and Adsorbate classes): identifier, to_dict() (typed) and == with an untouched twin must not move"""
+    rnd = random.Random(seed * 31 + 5)
+    n = 1200 if tier == 'thorough' else 140
+    hist, seen, nontrivial = {}, {}, set()
+    done = 0
+    for k in range(n):
+        spec = cc.gen_spec(rnd, 'json', cls=rnd.choice(['point', 'point', 'point', 'model', 'base']))
+        spec['mprops'] = ch.typed_mprops(rnd)
+        if spec['cls'] == 'point':
+            spec['data']['via'] = 'frame'
+        read_seed = 'c05-typed/%d/%d' % (seed, k)
+        try:
+            qs, s0, s1, eq0, eq1, in1 = typed_read_case(spec, read_seed)
+        except Exception:  # noqa  generator produced something a constructor refuses
+            hist['typed-reads/constructor-refused'] = hist.get('typed-reads/constructor-refused', 0) + 1
+            continue
+        done += 1
+        for q in qs:
+            q = re.split(r'[(]', q)[0] + (' -> raised' if ' -> ' in q else '')
+            hist['typed-reads/' + q] = hist.get('typed-reads/' + q, 0) + 1
+        d = ch.snapshot_diff(s0, s1)
+        if d is None and eq0 and not (eq1 and in1):
+            d = ('equality', '==', True, False)
+        if d:
+            tag = 'C05:unclassified:id-changed-by-reads-touching-%s' % d[0].replace(' ', '-')
+            seen[tag] = seen.get(tag, 0) + 1
+            if seen[tag] <= 3:
+                rep.failure(tag, 'after the read-only queries %s the %s %r changed from %r to %r; identifier %s -> %s; == with an untouched twin: %s -> %s' % (
+                    qs, d[0], d[1], d[2], d[3], s0['id'], s1['id'], eq0, eq1), {'specA': _js(spec), 'kind': 'typed-reads', 'read_seed': read_seed})
+            continue
+        nontrivial.add(('typed-reads', spec['cls'], tuple(sorted((a, type(b).__name__) for a, b in spec['mprops'].items())),
+                        tuple(sorted(set(re.split(r'[(]', q)[0] for q in qs if ' -> ' not in q)))))
+    rep.cov['evaluations'] += done
+    rep.cov['typed_value_reads'] = {'cases': done, 'failing_cases_per_tag': dict(sorted(seen.items()))}
+    return hist, nontrivial
+
 
 def run(rep, tier, seed):
     vlib.standard_proof_phase(rep, 'C05', extra_targets=['Ident/PrehashShow.vo'])
@@ -676,6 +733,9 @@ def explore(rep, tier, seed):
     hh, hn = held_reference_edits(rep, tier, seed)
     hist.update(hh)
     nontrivial |= hn
+    hh, hn = typed_value_reads(rep, tier, seed)
+    hist.update(hh)
+    nontrivial |= hn
     rep.cov['evaluations'] += len(cases) + len(sample)
     rep.cov['distinct_nontrivial'] = len(nontrivial)
     rep.cov['rule'] = ('pairs from the structured generator of C06: (i) same content by another route {row labels shifted / strings, int vs float '
@@ -688,7 +748,10 @@ def explore(rep, tier, seed):
                        'properties[k] set / added / deleted; material.properties; model.params[k], model.rmse, model.pressure_range}, identifier read '
                        'again: must change and must equal the identifier of a fresh isotherm built with the edited content; (v) object routes '
                        '{parse of the JSON export, constructor(**to_dict()), from_isotherm(template), convert_temperature vs fresh, temperature setter '
-                       'vs fresh} x {K, degC}: equal identifier demanded; read-only calls = 12 fixed-shape calls + 6 queries discovered on the class')
+                       'vs fresh} x {K, degC}: equal identifier demanded; read-only calls = 12 fixed-shape calls + 6 queries discovered on the class; '
+                       '(vi) material properties of every JSON type (density / molar_mass as int, numeric text, bool, None, list, dict) x 2-7 reads that touch '
+                       'them {loading / loading_at / pressure_at returned in another material or loading basis, pressure in another mode, every property '
+                       'and argument-free method discovered on Material and Adsorbate}: identifier, typed to_dict and == with an untouched twin unchanged')
     rep.cov['input_distribution'] = dict(sorted(hist.items()))
     rep.cov['correspondence'] = {'pairs': len(cases), 'disagreements': n_dis, 'to_dict_disagreements': n_td, 'object_route_refused': n_route_refused,
                                  'what': "model's 'same md5 input' (computed in Coq) vs implementation ==; model's to_dict of each abstracted object vs "
@@ -732,6 +795,15 @@ def replay(d):
         fresh = cc.build(e[1])
         print('identifier read:', id0, '| edit through a held reference:', e[0], '| identifier read again:', id1, '(unchanged!)' if id0 == id1 else '')
         print('fresh isotherm with the edited content:', fresh.iso_id, ' fresh == edited:', fresh == a)
+        return 1
+    if r.get('kind') == 'typed-reads':
+        sa = _unjs(r['specA'])
+        qs, s0, s1, eq0, eq1, in1 = typed_read_case(sa, r['read_seed'])
+        print('material properties:', sa['mprops'])
+        print('read-only queries:', qs)
+        print('identifier before:', s0['id'], 'after:', s1['id'], '(changed!)' if s0['id'] != s1['id'] else '')
+        print('first typed difference of to_dict():', ch.snapshot_diff(s0, s1))
+        print('== with an untouched twin before / after:', eq0, eq1, ' twin in [iso] after:', in1)
         return 1
     if r.get('kind') == 'read-only':
         a = cc.build(_unjs(r.get('specA') or r.get('spec')))
